@@ -18,7 +18,7 @@ type Node struct {
 	Juxt int `json:"j,omitempty"`
 }
 
-func leaf(s string) *Node        { return &Node{Kind: "leaf", Op: s} }
+func leaf(s string) *Node             { return &Node{Kind: "leaf", Op: s} }
 func bin(op string, l, r *Node) *Node { return &Node{Kind: "bin", Op: op, L: l, R: r} }
 func un(op string, l *Node) *Node     { return &Node{Kind: "un", Op: op, L: l} }
 
